@@ -190,6 +190,9 @@ def cases(draw, via, small):
 def plan(tier):
     n = 1 if tier == "quick" else 4
     shards = []
+    if tier == "thorough":
+        shards += [{"part": "atheris", "target": "c33-direct", "seconds": 180, "i": 900},
+                   {"part": "atheris", "target": "c33-chunked", "seconds": 180, "i": 901}]
     for via in ("direct", "direct", "stream", "chunked"):
         for small in (True, False):
             for _ in range(n):
@@ -201,6 +204,10 @@ def work(shard, seed, tier):
     from vp.core import env
     env.quiet_ioflo()
     acc = Acc()
+    if shard.get("part") == "atheris":
+        from vp.fuzz.fuzz_http import run_campaign
+        run_campaign(acc, shard["target"], shard["seconds"], seed, max_len=16384)
+        return acc
     if tier == "quick":
         n = 60 if shard["small"] else 120
     else:
@@ -217,7 +224,7 @@ def work(shard, seed, tier):
         return Outcome(fails, nontrivial=nontrivial, classes=classes, key=key, sample=sample)
 
     campaign(acc, cases(shard["via"], shard["small"]), execute, n, seed * 1000 + shard["i"],
-             budget=Budget(60 if tier == "quick" else 480))
+             budget=Budget(120 if tier == "quick" else 480))
     acc.extra["split_parses"] = tot["splits"]
     return acc
 
